@@ -108,6 +108,9 @@ impl EndiannessRead for LittleEndian {
 const PID_SENTINEL: u16 = 1;
 
 trait EncodingVersion: Sized {
+    /// Whether appendable types are preceded by a DHEADER (rule (30), version 2) or encoded as final (rule (29), version 1)
+    const APPENDABLE_HAS_DHEADER: bool;
+
     fn align<'a, E: EndiannessRead>(
         deserializer: &mut XTypesDeserializer<'a, E, Self>,
         alignment: usize,
@@ -186,6 +189,8 @@ fn get_discriminator_id_as_i32(v: &DynamicData) -> XTypesResult<i32> {
 
 struct EncodingVersion1;
 impl EncodingVersion for EncodingVersion1 {
+    const APPENDABLE_HAS_DHEADER: bool = false;
+
     fn align<'a, E: EndiannessRead>(
         deserializer: &mut XTypesDeserializer<'a, E, Self>,
         alignment: usize,
@@ -390,6 +395,8 @@ impl EncodingVersion for EncodingVersion1 {
 
 struct EncodingVersion2;
 impl EncodingVersion for EncodingVersion2 {
+    const APPENDABLE_HAS_DHEADER: bool = true;
+
     fn align<'a, E: EndiannessRead>(
         deserializer: &mut XTypesDeserializer<'a, E, Self>,
         alignment: usize,
@@ -871,7 +878,9 @@ impl<'a, E: EndiannessRead, V: EncodingVersion> XTypesDeserializer<'a, E, V> {
             TypeKind::UNION => match descriptor.extensibility_kind {
                 ExtensibilityKind::Final => self.deserialize_funion_type(&mut dynamic_data)?,
                 ExtensibilityKind::Appendable => {
-                    let _dheader = self.deserialize_primitive_type::<u32>()?;
+                    if V::APPENDABLE_HAS_DHEADER {
+                        let _dheader = self.deserialize_primitive_type::<u32>()?;
+                    }
                     self.deserialize_funion_type(&mut dynamic_data)?
                 }
                 ExtensibilityKind::Mutable => V::deserialize_munion_type(self, &mut dynamic_data)?,
